@@ -493,6 +493,14 @@ def api3_scenarios(ctx):
     sweep(["bi 0 8 1", "bt 0 0"], 1, "tag", 2); sweep(["nia", "bt 24 0"], 1, "tag", 4); sweep(["bb 1", "bt 4294967296 0", "bt 65535 1"], 2, "tag", 13)
     sweep(["bc 0"], 0, "fc", 1); sweep(["bc 255"], 0, "fc", 2); sweep(["bf 16 3c000000"], 0, "fc", 3); sweep(["bf 32 7fc00000"], 0, "fc", 5); sweep(["bf 64 7ff0000000000000"], 0, "fc", 9)
     sweep(["bi 0 8 23"], 0, "uint", 1); sweep(["bi 1 8 24"], 0, "negint", 2); sweep(["bi 0 64 18446744073709551615"], 0, "uint", 9)
+    # metadata getters (lengths, code points, sizes / capacities, definite / indefinite, chunk counts, tag value, refcount)
+    A(["bs 1 c3a96162", "vals 0", "bs 1 ff", "vals 1", "nds 1", "seth 2 e282ac", "vals 2", "shorten 2 2", "vals 2", "nis 1", "chunk 3 0", "chunk 3 0", "vals 3",
+       "nis 0", "vals 4", "bs 0 0102", "chunk 4 5", "vals 4", "nda 3", "push 6 0", "vals 6", "nia", "push 7 0", "push 7 1", "push 7 0", "vals 7", "ndm 2", "madd 8 0 1", "vals 8",
+       "nim", "madd 9 0 1", "madd 9 1 0", "vals 9", "nt 18446744073709551615", "preds 10", "tset 10 0", "vals 10", "vals 0", "inc 0", "inc 0", "preds 0", "dec 0", "dec 0"])
+    A(["load 83616101f6", "vals 0", "get 0 0", "vals 1", "get 0 2", "vals 2", "load 7f62c3a96161ff", "vals 3", "load 5f41004101ff", "vals 4", "load bf0102ff", "vals 5",
+       "load a10102", "vals 6", "load c1c249010000000000000000", "vals 7", "titem 7", "vals 8", "load 9f8080ff", "vals 9", "copy 9", "vals 10", "load 62c328", "vals 11", "load 78186162636465666768696a6b6c6d6e6f707172737475767778", "vals 12"])
+    for n in (0, 1, 2, 3, 5, 9):
+        A(["bi 0 8 1", "nia"] + ["push 1 0"] * n + ["vals 1", "nim"] + ["madd 2 0 0"] * n + ["vals 2", "bs 1 61", "nis 1"] + ["chunk 4 3"] * n + ["vals 4", "preds 0"])
     # predicates / getters on every other type
     A(["bs 0 0102", "preds 0", "vals 0", "bs 1 6869", "vals 1", "nis 0", "vals 2", "nis 1", "vals 3", "nda 2", "vals 4", "nia", "vals 5", "ndm 1", "vals 6", "nim", "vals 7",
        "nt 9", "preds 8", "vals 8", "nds 0", "vals 9", "nds 1", "vals 10"])
